@@ -423,6 +423,10 @@ def execute(history):
                     predicted_fantasy = True
                     out.stats["probe:fantasy_predicted"] += 1
                 tag = "predict[d%d,%s]" % (min(node.depth, 2), "fpv" if bundles.has(op.get("bundle", []), "fast_pred_var", state=True) else "std")
+            elif k == "retrain" and (M.likelihood is None or M.train_inputs is None):
+                # the node was left torn by a failed creation (already reported as source_touched): nothing to retrain
+                out.stats["skipped:retrain_of_torn_node"] += 1
+                tag = "skipped"
             elif k == "retrain":
                 M.train()
                 M.likelihood.train()
